@@ -14,7 +14,9 @@ Record cinfo := {
   ci_method : string;
   ci_scopes : list string;  (* granted scopes of the grant *)
   ci_aud : list string;
-  ci_subject : string
+  ci_subject : string;
+  ci_issued : Z;            (* model-free clock reading when the credential was handed out *)
+  ci_decision : nat         (* device codes: 0 undecided, 1 accepted, 2 rejected *)
 }.
 
 Record mstate := {
@@ -24,11 +26,12 @@ Record mstate := {
   m_used_rt : list nat;           (* refresh tokens exchanged successfully *)
   m_dead : list nat;              (* families that must stay inactive *)
   m_dead_creds : list nat;        (* individual credentials that must stay inactive *)
-  m_prev : list (option payload)  (* probe vector after the previous step *)
+  m_prev : list (option payload); (* probe vector after the previous step *)
+  m_now : Z                       (* sum of the clock advances so far *)
 }.
 
 Definition m0 (cls : list client) : mstate :=
-  {| m_creds := []; m_clients := cls; m_redeemed := []; m_used_rt := []; m_dead := []; m_dead_creds := []; m_prev := [] |}.
+  {| m_creds := []; m_clients := cls; m_redeemed := []; m_used_rt := []; m_dead := []; m_dead_creds := []; m_prev := []; m_now := 0%Z |}.
 
 Fixpoint memn (x : nat) (l : list nat) : bool :=
   match l with [] => false | y :: r => Nat.eqb x y || memn x r end.
@@ -50,83 +53,90 @@ Definition client_has_grant (m : mstate) (c : nat) (g : string) : bool :=
   match nth_error (m_clients m) c with Some cl => args_has (cl_grants cl) [g] | None => false end.
 
 (* credentials minted by a token response of grant family [fam] for client [c] *)
-Definition token_infos (base : nat) (kinds : list ckind) (c fam : nat) (sc aud : list string) (sub : string) : list cinfo :=
+Definition token_infos (tnow : Z) (base : nat) (kinds : list ckind) (c fam : nat) (sc aud : list string) (sub : string) : list cinfo :=
   match kinds with
   | [KAccess; KRefresh] =>
       [{| ci_kind := KAccess; ci_client := c; ci_family := fam; ci_pair := Some (S base); ci_challenge := ""; ci_method := "";
-          ci_scopes := sc; ci_aud := aud; ci_subject := sub |};
+          ci_scopes := sc; ci_aud := aud; ci_subject := sub; ci_issued := tnow; ci_decision := 0 |};
        {| ci_kind := KRefresh; ci_client := c; ci_family := fam; ci_pair := Some base; ci_challenge := ""; ci_method := "";
-          ci_scopes := sc; ci_aud := aud; ci_subject := sub |}]
+          ci_scopes := sc; ci_aud := aud; ci_subject := sub; ci_issued := tnow; ci_decision := 0 |}]
   | _ => map (fun k => {| ci_kind := k; ci_client := c; ci_family := fam; ci_pair := None; ci_challenge := ""; ci_method := "";
-                          ci_scopes := sc; ci_aud := aud; ci_subject := sub |}) kinds
+                          ci_scopes := sc; ci_aud := aud; ci_subject := sub; ci_issued := tnow; ci_decision := 0 |}) kinds
   end.
 
 (* bookkeeping after a step: new credentials, registrations, redeemed / used marks *)
 Definition track (m : mstate) (o : op) (ob : obs) (probes : list (option payload)) : mstate :=
+  let tnow := m_now m in
   let base := List.length (m_creds m) in
   let ok := String.eqb (o_err ob) "" in
   let add l := {| m_creds := (m_creds m ++ l)%list; m_clients := m_clients m; m_redeemed := m_redeemed m;
-                  m_used_rt := m_used_rt m; m_dead := m_dead m; m_dead_creds := m_dead_creds m; m_prev := probes |} in
+                  m_used_rt := m_used_rt m; m_dead := m_dead m; m_dead_creds := m_dead_creds m; m_prev := probes; m_now := m_now m |} in
   match o with
   | OAuthorize a =>
       if ok then add (map (fun k => {| ci_kind := k; ci_client := az_client a; ci_family := base; ci_pair := None;
                                         ci_challenge := az_challenge a; ci_method := az_method a;
-                                        ci_scopes := az_granted a; ci_aud := map a_raw (az_gaud a); ci_subject := az_subject a |})
+                                        ci_scopes := az_granted a; ci_aud := map a_raw (az_gaud a); ci_subject := az_subject a; ci_issued := tnow; ci_decision := 0 |})
                          (o_minted ob))
       else add []
   | ORedeem _ code _ _ _ _ =>
       match cred m code with
       | Some (i, c) =>
           if ok then
-            let m' := add (token_infos base (o_minted ob) (ci_client c) (ci_family c) (ci_scopes c) (ci_aud c) (ci_subject c)) in
+            let m' := add (token_infos tnow base (o_minted ob) (ci_client c) (ci_family c) (ci_scopes c) (ci_aud c) (ci_subject c)) in
             {| m_creds := m_creds m'; m_clients := m_clients m'; m_redeemed := i :: m_redeemed m'; m_used_rt := m_used_rt m';
-               m_dead := m_dead m'; m_dead_creds := m_dead_creds m'; m_prev := probes |}
+               m_dead := m_dead m'; m_dead_creds := m_dead_creds m'; m_prev := probes; m_now := m_now m |}
           else add []
-      | None => add (token_infos base (o_minted ob) 0 base [] [] "")
+      | None => add (token_infos tnow base (o_minted ob) 0 base [] [] "")
       end
   | ORefresh _ tok _ =>
       match cred m tok with
       | Some (j, c) =>
           if ok then
-            let m' := add (token_infos base (o_minted ob) (ci_client c) (ci_family c) (ci_scopes c) (ci_aud c) (ci_subject c)) in
+            let m' := add (token_infos tnow base (o_minted ob) (ci_client c) (ci_family c) (ci_scopes c) (ci_aud c) (ci_subject c)) in
             {| m_creds := m_creds m'; m_clients := m_clients m'; m_redeemed := m_redeemed m'; m_used_rt := j :: m_used_rt m';
-               m_dead := m_dead m'; m_dead_creds := m_dead_creds m'; m_prev := probes |}
+               m_dead := m_dead m'; m_dead_creds := m_dead_creds m'; m_prev := probes; m_now := m_now m |}
           else add []
-      | None => add (token_infos base (o_minted ob) 0 base [] [] "")
+      | None => add (token_infos tnow base (o_minted ob) 0 base [] [] "")
       end
   | OPassword auth _ _ _ g ga =>
-      add (token_infos base (o_minted ob) (match auth with Some c => c | None => 0 end) base g (map a_raw ga) "uuid")
+      add (token_infos tnow base (o_minted ob) (match auth with Some c => c | None => 0 end) base g (map a_raw ga) "uuid")
   | OClientCreds auth _ _ g ga =>
-      add (token_infos base (o_minted ob) (match auth with Some c => c | None => 0 end) base g (map a_raw ga) "")
+      add (token_infos tnow base (o_minted ob) (match auth with Some c => c | None => 0 end) base g (map a_raw ga) "")
+  | OAdvance ms =>
+      {| m_creds := m_creds m; m_clients := m_clients m; m_redeemed := m_redeemed m; m_used_rt := m_used_rt m;
+         m_dead := m_dead m; m_dead_creds := m_dead_creds m; m_prev := probes; m_now := (m_now m + ms)%Z |}
   | OSetClient id c =>
       {| m_creds := m_creds m; m_clients := replace_nth (m_clients m) id c; m_redeemed := m_redeemed m; m_used_rt := m_used_rt m;
-         m_dead := m_dead m; m_dead_creds := m_dead_creds m; m_prev := probes |}
+         m_dead := m_dead m; m_dead_creds := m_dead_creds m; m_prev := probes; m_now := m_now m |}
   | OPush auth bc _ a =>
       let c := match bc, auth with Some b, _ => b | None, Some x => x | None, None => 0 end in
       add (map (fun k => {| ci_kind := k; ci_client := c; ci_family := base; ci_pair := None;
                             ci_challenge := az_challenge a; ci_method := az_method a;
-                            ci_scopes := az_scopes a; ci_aud := map a_raw (az_aud a); ci_subject := "" |}) (o_minted ob))
+                            ci_scopes := az_scopes a; ci_aud := map a_raw (az_aud a); ci_subject := ""; ci_issued := tnow; ci_decision := 0 |}) (o_minted ob))
   | OAuthorizePAR _ uri a =>
       match cred m uri with
-      | Some (_, pc) =>
-          add (map (fun k => {| ci_kind := k; ci_client := ci_client pc; ci_family := base; ci_pair := None;
+      | Some (pi, pc) =>
+          (fun m' => {| m_creds := m_creds m'; m_clients := m_clients m'; m_redeemed := pi :: m_redeemed m'; m_used_rt := m_used_rt m';
+                        m_dead := m_dead m'; m_dead_creds := m_dead_creds m'; m_prev := m_prev m'; m_now := m_now m' |})
+          (add (map (fun k => {| ci_kind := k; ci_client := ci_client pc; ci_family := base; ci_pair := None;
                                 ci_challenge := if String.eqb (ci_challenge pc) "" then az_challenge a else ci_challenge pc;
                                 ci_method := if String.eqb (ci_method pc) "" then az_method a else ci_method pc;
-                                ci_scopes := az_granted a; ci_aud := map a_raw (az_gaud a); ci_subject := az_subject a |}) (o_minted ob))
-      | None => add (token_infos base (o_minted ob) 0 base [] [] "")
+                                ci_scopes := az_granted a; ci_aud := map a_raw (az_gaud a); ci_subject := az_subject a; ci_issued := tnow; ci_decision := 0 |}) (o_minted ob)))
+      | None => add (token_infos tnow base (o_minted ob) 0 base [] [] "")
       end
   | ODeviceAuth auth _ sc au =>
       add (map (fun k => {| ci_kind := k; ci_client := match auth with Some c => c | None => 0 end; ci_family := base; ci_pair := None;
-                            ci_challenge := ""; ci_method := ""; ci_scopes := []; ci_aud := []; ci_subject := "" |}) (o_minted ob))
-  | ODecide dev _ g ga sub =>
+                            ci_challenge := ""; ci_method := ""; ci_scopes := []; ci_aud := []; ci_subject := ""; ci_issued := tnow; ci_decision := 0 |}) (o_minted ob))
+  | ODecide dev acc g ga sub =>
       match cred m dev with
       | Some (i, c) =>
           if ok then
             {| m_creds := replace_nth (m_creds m) i
                             {| ci_kind := ci_kind c; ci_client := ci_client c; ci_family := ci_family c; ci_pair := ci_pair c;
-                               ci_challenge := ""; ci_method := ""; ci_scopes := g; ci_aud := map a_raw ga; ci_subject := sub |};
+                               ci_challenge := ""; ci_method := ""; ci_scopes := g; ci_aud := map a_raw ga; ci_subject := sub;
+                               ci_issued := ci_issued c; ci_decision := if acc then 1 else 2 |};
                m_clients := m_clients m; m_redeemed := m_redeemed m; m_used_rt := m_used_rt m;
-               m_dead := m_dead m; m_dead_creds := m_dead_creds m; m_prev := probes |}
+               m_dead := m_dead m; m_dead_creds := m_dead_creds m; m_prev := probes; m_now := m_now m |}
           else add []
       | None => add []
       end
@@ -134,18 +144,18 @@ Definition track (m : mstate) (o : op) (ob : obs) (probes : list (option payload
       match cred m dev with
       | Some (i, c) =>
           if ok then
-            let m' := add (token_infos base (o_minted ob) (ci_client c) (ci_family c) (ci_scopes c) (ci_aud c) (ci_subject c)) in
+            let m' := add (token_infos tnow base (o_minted ob) (ci_client c) (ci_family c) (ci_scopes c) (ci_aud c) (ci_subject c)) in
             {| m_creds := m_creds m'; m_clients := m_clients m'; m_redeemed := i :: m_redeemed m'; m_used_rt := m_used_rt m';
-               m_dead := m_dead m'; m_dead_creds := m_dead_creds m'; m_prev := probes |}
+               m_dead := m_dead m'; m_dead_creds := m_dead_creds m'; m_prev := probes; m_now := m_now m |}
           else add []
-      | None => add (token_infos base (o_minted ob) 0 base [] [] "")
+      | None => add (token_infos tnow base (o_minted ob) 0 base [] [] "")
       end
-  | _ => add (token_infos base (o_minted ob) 0 base [] [] "")
+  | _ => add (token_infos tnow base (o_minted ob) 0 base [] [] "")
   end.
 
 Definition with_dead (m : mstate) (fams creds : list nat) : mstate :=
   {| m_creds := m_creds m; m_clients := m_clients m; m_redeemed := m_redeemed m; m_used_rt := m_used_rt m;
-     m_dead := (fams ++ m_dead m)%list; m_dead_creds := (creds ++ m_dead_creds m)%list; m_prev := m_prev m |}.
+     m_dead := (fams ++ m_dead m)%list; m_dead_creds := (creds ++ m_dead_creds m)%list; m_prev := m_prev m; m_now := m_now m |}.
 
 (* every token-endpoint token of a dead family, and every dead credential, must probe inactive *)
 Fixpoint dead_ok_from (m : mstate) (i : nat) (cs : list cinfo) (probes : list (option payload)) : bool :=
@@ -392,6 +402,68 @@ Fixpoint clock_from (t : Z) (steps : list (op * obs * list (option payload))) : 
   end.
 Definition monitor_C07 (c : hcase) : option string := clock_from 0%Z (impl_trace c).
 
+(* ------------------------------------------------------------------ C16 *)
+Definition judge_C16 (cfg : config) : judge_t := fun m o ob pr =>
+  match o with
+  | ODevicePoll auth dev =>
+      match cred m dev with
+      | Some (i, c) =>
+          let expired_ := Z.ltb (round_s (ci_issued c + cf_life_dev cfg)) (m_now m) in
+          let owner_ := match auth with Some a => Nat.eqb a (ci_client c) | None => false end in
+          let granted_ := match auth with Some a => client_has_grant m a "urn:ietf:params:oauth:grant-type:device_code" | None => false end in
+          if String.eqb (o_err ob) "" then
+            if memn i (m_redeemed m) then (Some "device_code_yielded_tokens_twice", [], [])
+            else if negb (Nat.eqb (ci_decision c) 1) then (Some "tokens_issued_without_approval", [], [])
+            else if negb owner_ then (Some "tokens_issued_to_a_client_that_did_not_start_the_flow", [], [])
+            else if expired_ then (Some "tokens_issued_after_device_code_expiry", [], [])
+            else if p_tampered dev then (Some "tampered_device_code_accepted", [], [])
+            else if list_eqb (o_scopes ob) (ci_scopes c) then (None, [], []) else (Some "device_tokens_scope_differs_from_decision", [], [])
+          else if granted_ && negb (p_tampered dev) && negb (memn i (m_redeemed m)) then
+            (* the listed verdict is required when only its condition applies *)
+            if owner_ && negb expired_ && Nat.eqb (ci_decision c) 0 && negb (String.eqb (o_err ob) "authorization_pending")
+            then (Some "undecided_poll_not_answered_authorization_pending", [], [])
+            else if owner_ && negb expired_ && Nat.eqb (ci_decision c) 2 && negb (String.eqb (o_err ob) "access_denied")
+            then (Some "denied_poll_not_answered_access_denied", [], [])
+            else if owner_ && expired_ && Nat.eqb (ci_decision c) 1 && negb (String.eqb (o_err ob) "expired_token")
+            then (Some "expired_poll_not_answered_expired_token", [], [])
+            else if negb owner_ && negb expired_ && Nat.eqb (ci_decision c) 1 && negb (String.eqb (o_err ob) "invalid_grant")
+            then (Some "foreign_poll_not_answered_invalid_grant", [], [])
+            else (None, [], [])
+          else (None, [], [])
+      | None => if String.eqb (o_err ob) "" then (Some "unknown_device_code_yielded_tokens", [], []) else (None, [], [])
+      end
+  | _ => (None, [], [])
+  end.
+
+(* ------------------------------------------------------------------ C17 *)
+Definition judge_C17 (cfg : config) : judge_t := fun m o ob pr =>
+  match o with
+  | OPush auth bc ru _ =>
+      if String.eqb (o_err ob) "" then
+        match auth, bc with
+        | None, _ => (Some "push_accepted_without_client_authentication", [], [])
+        | Some a, Some b => if Nat.eqb a b then (if ru then (Some "push_containing_request_uri_accepted", [], []) else (None, [], []))
+                            else (Some "push_processed_in_the_name_of_another_client", [], [])
+        | Some _, None => if ru then (Some "push_containing_request_uri_accepted", [], []) else (None, [], [])
+        end
+      else (None, [], [])
+  | OAuthorizePAR cp uri a =>
+      if String.eqb (o_err ob) "" then
+        match cred m uri with
+        | Some (i, c) =>
+            if memn i (m_redeemed m) then (Some "request_uri_started_a_second_authorization", [], [])
+            else if negb (Nat.eqb cp (ci_client c)) then (Some "request_uri_used_by_another_client", [], [])
+            else if Z.ltb (ci_issued c + cf_par_life cfg) (m_now m) then (Some "request_uri_honoured_after_expiry", [], [])
+            else (None, [], [])
+        | None => (Some "unknown_request_uri_started_an_authorization", [], [])
+        end
+      else (None, [], [])
+  | OAuthorize _ =>
+      if String.eqb (o_err ob) "" && cf_par_enforced cfg then (Some "authorization_without_request_uri_although_pushing_is_enforced", [], [])
+      else (None, [], [])
+  | _ => (None, [], [])
+  end.
+
 (* ------------------------------------------------------------------ checks *)
 Definition check_with (mon : hcase -> option string) (c : hcase) : verdict := V (hist_corr c) (mon c).
 
@@ -403,3 +475,5 @@ Definition check_C05 := check_with (fun c => match c with HCase cfg _ _ => first
 Definition check_C07 := check_with monitor_C07.
 Definition check_C08 := check_with (monitor judge_C08).
 Definition check_C09 := check_with payload_monitor.
+Definition check_C16 := check_with (fun c => match c with HCase cfg _ _ => first_some (monitor (judge_C16 cfg) c) (payload_monitor c) end).
+Definition check_C17 := check_with (fun c => match c with HCase cfg _ _ => monitor (judge_C17 cfg) c end).
